@@ -65,12 +65,17 @@ def rule_classes(program, ctx):
             ctx.bad(finding_func(P, rid, program.func("aionostr.event:Event.verify"), f"aionostr Event.{k} is no longer the half-open range {v[0]}: got {ranges.get(k)}", text=k))
 
 
-def _where_conj(expr):
+def _where_conj(expr, fn=None):
+    from ..lib import expand_aliases, func_of
+
+    fn = fn or func_of(expr)
     out = []
+    if fn is not None:
+        expr = expand_aliases(fn, expr)
     for sub in ast.walk(expr):
         if isinstance(sub, ast.Call) and isinstance(sub.func, ast.Attribute) and sub.func.attr == "where":
             for a in sub.args:
-                out += _conjuncts(a)
+                out += _conjuncts(expand_aliases(fn, a) if fn is not None else a)
     return out
 
 
@@ -97,7 +102,7 @@ def rule_frame_sql(program, ctx):
     else:
         cj = []
         for e in sel:
-            cj += _where_conj(e)
+            cj += _where_conj(e, ps)
         need = [("pubkey", "event.pubkey", (ast.Eq,)), ("kind", "event.kind", (ast.Eq,)), ("created_at", "event.created_at", (ast.Lt,))]
         miss = [n[0] for n in need if not _has(cj, *n)]
         disj = any(isinstance(n, ast.BinOp) and isinstance(n.op, ast.BitOr) for e in sel for n in ast.walk(e))
@@ -112,7 +117,7 @@ def rule_frame_sql(program, ctx):
     po = program.func("nostr_relay.storage.db:DBStorage.post_save")
     dels = [c.args[0] for c in walk_no_nested(po) if isinstance(c, ast.Call) and call_name(c).endswith(".execute") and c.args and "delete" in ast.unparse(c.args[0])]
     for e in dels:
-        cj = _where_conj(e)
+        cj = _where_conj(e, po)
         need = [("pubkey", "event.pubkey", (ast.Eq,)), ("kind", "event.kind", (ast.Eq,)), ("created_at", "event.created_at", (ast.Lt,))]
         miss = [n[0] for n in need if not _has(cj, *n)]
         if miss:
@@ -127,7 +132,7 @@ def rule_frame_sql(program, ctx):
     # pre_save deletes exactly ids that came out of that SELECT
     for c in walk_no_nested(ps):
         if isinstance(c, ast.Call) and call_name(c).endswith(".execute") and c.args and "delete" in ast.unparse(c.args[0]):
-            cj = _where_conj(c.args[0])
+            cj = _where_conj(c.args[0], ps)
             okid = False
             for x in cj:
                 if isinstance(x, ast.Compare) and ast.unparse(x.left).endswith(".c.id") and isinstance(x.ops[0], ast.Eq) and isinstance(x.comparators[0], ast.Name):
